@@ -106,7 +106,9 @@ impl TcpConnector for TcpForwarder {
                         break;
                     }
 
-                    if status.is_none() && ip.is_loopback() {
+                    // reported as loopback as long as every refused address is a loopback one
+                    if ip.is_loopback() && matches!(status, None | Some(SelectionStatus::Loopback))
+                    {
                         status = Some(SelectionStatus::Loopback);
                         continue;
                     }
